@@ -1,6 +1,8 @@
 CONSTANTS
   Protos = {"bolt", "http1"}
-  MaxReq = 3
+  MaxReq = 5
+  MaxInflight = 3
+  MaxDone = 1
   Defects = {}
   EmitCases = TRUE
 SPECIFICATION Spec
